@@ -261,10 +261,15 @@ func genC19(g *Gen, tier string, emit func(op string, args ...string)) {
 	for _, l := range []int{32, 64, 1 << 20} {
 		emit("startkey", hx(mks[0]), itoa(l), "1")
 	}
-	// master keys and NT responses of every length 0..40
-	for l := 0; l <= 40; l++ {
+	// master keys, NT responses, challenges and password hashes of every length 0..130 (the sizes of the
+	// neighbouring protocol fields — 49/50-octet MS-CHAP2-Response values, 8/16/24/32 — lie in between)
+	for l := 0; l <= 130; l++ {
 		emit("startkey", hx(g.Bytes(l)), itoa(g.Pick(8, 16)), b01(g.Bool()))
 		emit("makekey", hx(g.Bytes(l)), hx(g.c19Password()), b01(g.Bool()))
+		emit("makekey", hx(g.Bytes(l)), hx(g.c19Password()), b01(g.Bool()))
+		emit("masterkey", hx(g.Bytes(16)), hx(g.Bytes(l)))
+		emit("masterkey", hx(g.Bytes(l)), hx(g.Bytes(24)))
+		emit("authresp", hx(g.Bytes(16)), hx(g.Bytes(16)), hx(g.Bytes(l)), "55", hx(g.c19Password()))
 	}
 	// key expansion: every single key bit, every octet pattern in every position, all lengths 0..12
 	for bit := 0; bit < 56; bit++ {
